@@ -7,11 +7,15 @@ The local branch (`isinstance(stat, stat_result)` -> `hash_path(path, stat.st_mt
 (`_get_state_facts`); this section describes the OTHER branch, which that translator skips:
 
     if isinstance(stat, UPathStatResult):
-        return stat.as_info().get(<key>, <default>)
+        etag = stat.as_info().get(<key>)
+        if etag is not None:
+            return etag
+        return hash_path(path, stat.st_mtime)          # (before the repair of F61: return stat.as_info().get(<key>, <constant>))
 
 Emitted (consumed by PytaskProofs/Lemmas/StateUPath.lean):
   upathStateKey     : String   -- the entry of the file system's info record used as state ("ETag")
-  upathNoEtagState  : String   -- the constant returned when the file system reports no such entry ("0")
+  upathNoEtagKind   : String   -- what the state is when the file system reports no such entry: "hashPathMtime" | "const"
+  upathNoEtagConst  : String   -- the constant in the latter case
 """
 from __future__ import annotations
 
@@ -43,19 +47,35 @@ def state_section():
         raise err(f"expected exactly one `isinstance(<stat>, UPathStatResult)` branch, found {len(branches)}")
     br = branches[0]
     stat = ast.unparse(br.test.args[0])
+    pth = fn.args.args[0].arg
     body = [s for s in br.body if not (isinstance(s, ast.Expr) and isinstance(s.value, ast.Constant))]
-    if br.orelse or len(body) != 1 or not isinstance(body[0], ast.Return):
-        raise err("the UPathStatResult branch is not a single return statement")
-    r = body[0].value
-    ok = (isinstance(r, ast.Call) and isinstance(r.func, ast.Attribute) and r.func.attr == "get" and not r.keywords and len(r.args) == 2
-          and ast.unparse(r.func.value) == f"{stat}.as_info()"
-          and all(isinstance(a, ast.Constant) and isinstance(a.value, str) for a in r.args))
-    if not ok:
-        raise err(f"the UPathStatResult branch returns {ast.unparse(r)}, not {stat}.as_info().get(<str>, <str>)")
-    key, default = r.args[0].value, r.args[1].value
+    if br.orelse:
+        raise err("the UPathStatResult branch has an else part")
     q = lambda s: '"' + s.replace("\\", "\\\\").replace('"', '\\"') + '"'
+
+    def info_get(r, nargs):
+        return (isinstance(r, ast.Call) and isinstance(r.func, ast.Attribute) and r.func.attr == "get" and not r.keywords and len(r.args) == nargs
+                and ast.unparse(r.func.value) == f"{stat}.as_info()" and all(isinstance(a, ast.Constant) and isinstance(a.value, str) for a in r.args))
+
+    if len(body) == 1 and isinstance(body[0], ast.Return) and info_get(body[0].value, 2):
+        # (before the repair of F61)  return stat.as_info().get(<key>, <constant>)
+        key, kind, const = body[0].value.args[0].value, "const", body[0].value.args[1].value
+    elif (len(body) == 3 and isinstance(body[0], ast.Assign) and len(body[0].targets) == 1 and isinstance(body[0].targets[0], ast.Name)
+          and info_get(body[0].value, 1) and isinstance(body[1], ast.If) and not body[1].orelse and len(body[1].body) == 1
+          and ast.unparse(body[1].test) == f"{body[0].targets[0].id} is not None"
+          and isinstance(body[1].body[0], ast.Return) and ast.unparse(body[1].body[0].value) == body[0].targets[0].id
+          and isinstance(body[2], ast.Return) and ast.unparse(body[2].value) == f"hash_path({pth}, {stat}.st_mtime)"):
+        #   etag = stat.as_info().get(<key>);  if etag is not None: return etag;  return hash_path(path, stat.st_mtime)
+        key, kind, const = body[0].value.args[0].value, "hashPathMtime", ""
+    else:
+        raise err("the UPathStatResult branch is neither `return <stat>.as_info().get(<str>, <str>)` nor "
+                  "`e = <stat>.as_info().get(<str>); if e is not None: return e; return hash_path(<path>, <stat>.st_mtime)`: "
+                  + " | ".join(ast.unparse(x).replace("\n", " ") for x in body)[:200])
     return [
-        "/-- `nodes._get_state`, branch `isinstance(stat, UPathStatResult)`: `stat.as_info().get(upathStateKey, upathNoEtagState)`. -/",
+        "/-- `nodes._get_state`, branch `isinstance(stat, UPathStatResult)`: the state is the entry `upathStateKey` of the file system's info",
+        "record if there is one; otherwise `upathNoEtagKind` says what: \"hashPathMtime\" = `hash_path(path, stat.st_mtime)` (the memoised content",
+        "hash, as for local paths), \"const\" = the constant `upathNoEtagConst`. -/",
         f"def upathStateKey : String := {q(key)}",
-        f"def upathNoEtagState : String := {q(default)}",
+        f"def upathNoEtagKind : String := {q(kind)}",
+        f"def upathNoEtagConst : String := {q(const)}",
     ]
